@@ -76,11 +76,13 @@ class Layout:
             text = s.text
             # optional `;` joining of two short plain statements
             joined = False
-            if (not self.plain and not docs and s.kind == "code" and i + 1 < n and stmts[i + 1].kind == "code"
+            if (not self.plain and not docs and s.kind in ("code", "exec") and not s.label and i + 1 < n and stmts[i + 1].kind == s.kind and not stmts[i + 1].label
                     and not stmts[i + 1].docs and rng.random() < self.semi_p and len(text) < 60 and "\n" not in text):
                 text = text + rng.choice([" ; ", "; ", ";"]) + stmts[i + 1].text
                 joined = True
                 self.features.add("semicolon")
+            if s.label:
+                text = s.label + " " + text
             lines = self._break_free(text, ind)
             if inline:
                 lines[-1] += inline
@@ -138,7 +140,7 @@ class Layout:
         labels in 1-5, comment lines C/c/*/!, optional sequence-field junk in 73+."""
         rng = self.rng
         out: List[str] = []
-        contchars = "123456789&+*$abcXYZ.>#@"
+        contchars = "".join(chr(c) for c in range(33, 127) if chr(c) != "0")
         for s in stmts:
             if s.kind == "filedoc":
                 for d in s.docs:
@@ -167,12 +169,12 @@ class Layout:
                     out.append("")
             out += pre_lines
             text = s.text
-            width = 66
+            # with the length limit off, statements may extend beyond column 72
+            width = 66 if length_limit else rng.choice([66, 90, 120, 120])
             # split text into chunks at blanks outside literals so that each fits columns 7-72
             pieces = self._split_fixed(text, width, force=(not self.plain and rng.random() < self.cont_p))
-            label = ""
-            if not self.plain and s.kind == "code" and rng.random() < 0.1:
-                label = str(rng.randint(1, 99999))
+            label = s.label or ""
+            if label:
                 self.features.add("label")
             lines = []
             for j, pc in enumerate(pieces):
@@ -183,9 +185,9 @@ class Layout:
                     lines.append("     " + cc + pc)
                     self.features.add("fixed_cont")
                 if j < len(pieces) - 1 and not self.plain and rng.random() < 0.2:
-                    lines.append(rng.choice(["C interleaved zn8", "", "* zn9", "c", "!   zn1"]))
+                    lines.append(rng.choice(["C interleaved zn8", "", "* zn9", "c", "!   zn1", "   ", "      ", "          ", " " * 30]))
                     self.features.add("fixed_cont_interleaved")
-            if inline and len(lines[-1]) + len(inline) <= 72:
+            if inline and (len(lines[-1]) + len(inline) <= 72 or not length_limit):
                 lines[-1] += inline
             elif inline:
                 post_lines = [f"!{self.docmark} {docs[0]}"] + post_lines
@@ -220,3 +222,17 @@ class Layout:
             force = False
         pieces.append(text[start:])
         return pieces
+
+
+def assign_labels(stmts, rng, p=0.15):
+    """Give some executable statements a numeric label (same labels for every layout of the file)."""
+    used = set()
+    for s in stmts:
+        if s.kind == "exec" and rng.random() < p:
+            while True:
+                lab = str(rng.choice([rng.randint(1, 9), rng.randint(10, 999), rng.randint(1000, 99999)]))
+                if lab not in used:
+                    break
+            used.add(lab)
+            s.label = lab
+    return stmts
